@@ -952,43 +952,84 @@ func c04TypeListPadded(p *Prog, r *Report) {
 				return
 			}
 			n++
-			// the loop test: If in the phi's block on len(phi) against len(<interface list>)
+			// the loop runs (bound − start) times with step 1, and that must be len(args) − len(initial types):
+			// `for len(types) < len(args)`, `for i := len(types); i < len(args); i++`, `for i := 0; i < len(args)-len(types); i++`
 			iff, _ := lastInstr(ph.Block()).(*ssa.If)
 			okCond := false
 			if iff != nil {
 				if bo, ok := iff.Cond.(*ssa.BinOp); ok && bo.Op == token.LSS && ph.Block().Succs[0] == cl.Block() {
-					lx, okx := bo.X.(*ssa.Call)
-					ly, oky := bo.Y.(*ssa.Call)
-					// counter form: i starts at len(initial types), steps by one, runs while i < len(args)
-					if cnt, isPhi := bo.X.(*ssa.Phi); isPhi && oky && cnt.Block() == ph.Block() {
-						startOK, stepOK := false, false
-						for ei, e := range cnt.Edges {
+					k := NewKeyer(f)
+					var initList ssa.Value
+					for _, e := range ph.Edges {
+						if e != ssa.Value(cl) {
+							initList = e
+						}
+					}
+					diff := map[string]int64{}
+					var dc int64
+					linForm(k, bo.Y, 1, diff, &dc, 0)
+					okStart := false
+					lenLoop := false
+					if lx, isCall := bo.X.(*ssa.Call); isCall {
+						if bx, isB := lx.Call.Value.(*ssa.Builtin); isB && bx.Name() == "len" && lx.Call.Args[0] == ssa.Value(ph) && initList != nil {
+							lenLoop = true
+							okStart = true
+						}
+					} else if cnt, isPhi := bo.X.(*ssa.Phi); isPhi && cnt.Block() == ph.Block() {
+						stepOK := false
+						for _, e := range cnt.Edges {
 							if inc, isB := e.(*ssa.BinOp); isB && inc.Op == token.ADD && inc.X == ssa.Value(cnt) {
 								if c, isC := constInt(inc.Y); isC && c == 1 {
 									stepOK = true
 								}
 								continue
 							}
-							if lc, isC := e.(*ssa.Call); isC {
-								if b0, isB := lc.Call.Value.(*ssa.Builtin); isB && b0.Name() == "len" && lc.Call.Args[0] == ph.Edges[ei] {
-									startOK = true
+							linForm(k, e, -1, diff, &dc, 0)
+						}
+						okStart = stepOK
+					}
+					// + len(initial list), expressed through the slice expression that made it where there is one
+					addLen := func(v ssa.Value, sign int64) {
+						if sl, ok := v.(*ssa.Slice); ok {
+							if _, isPtr := sl.X.Type().Underlying().(*types.Pointer); !isPtr && sl.Max == nil {
+								switch {
+								case sl.Low == nil && sl.High != nil:
+									linForm(k, sl.High, sign, diff, &dc, 0)
+									return
+								case sl.Low != nil && sl.High == nil:
+									diff["len("+k.Key(sl.X)+")"] += sign
+									linForm(k, sl.Low, -sign, diff, &dc, 0)
+									return
+								case sl.Low != nil && sl.High != nil:
+									linForm(k, sl.High, sign, diff, &dc, 0)
+									linForm(k, sl.Low, -sign, diff, &dc, 0)
+									return
 								}
 							}
 						}
-						if by, isBy := ly.Call.Value.(*ssa.Builtin); isBy && by.Name() == "len" && startOK && stepOK {
-							if sl, ok := ly.Call.Args[0].Type().Underlying().(*types.Slice); ok && types.IsInterface(sl.Elem()) {
-								okCond = true
-							}
-						}
+						diff["len("+k.Key(v)+")"] += sign
 					}
-					if okx && oky {
-						bx, isBx := lx.Call.Value.(*ssa.Builtin)
-						by, isBy := ly.Call.Value.(*ssa.Builtin)
-						if isBx && isBy && bx.Name() == "len" && by.Name() == "len" && lx.Call.Args[0] == ssa.Value(ph) {
-							if sl, ok := ly.Call.Args[0].Type().Underlying().(*types.Slice); ok && types.IsInterface(sl.Elem()) {
-								okCond = true
+					if okStart && initList != nil {
+						// the len-loop starts at len(initial list); then: iterations + len(initial list) must be len(args)
+						if lenLoop {
+							addLen(initList, -1)
+						}
+						addLen(initList, 1)
+					}
+					if okStart && initList != nil && dc == 0 {
+						nArgs := 0
+						okForm := true
+						for key, c := range diff {
+							if c == 0 {
+								continue
+							}
+							if c == 1 && strings.HasPrefix(key, "len(") {
+								nArgs++
+							} else {
+								okForm = false
 							}
 						}
+						okCond = okForm && nArgs == 1
 					}
 				}
 			}
